@@ -16,30 +16,14 @@ Theorem C17_one_terminal_ctl : forall b l,
 Proof. intros b l. destruct (crun b cinit l) as [s t] eqn:E. exact (ctl_one_terminal b l s t E). Qed.
 Print Assumptions C17_one_terminal_ctl.
 
-Theorem C17_at_most_one_terminal_basic : forall b hook l,
-  (count_terminal (statuses (snd (brun b hook binit l))) <= 1)%nat.
+(* basic and hook tasks: full statement since KILL stops the RUNNING timer (repair of C17-c) *)
+Theorem C17_one_terminal_basic : forall b hook l,
+  status_ok (statuses (snd (brun b hook binit l))) = true.
 Proof.
   intros b hook l. destruct (brun b hook binit l) as [s t] eqn:E.
-  exact (proj1 (basic_at_most_one_terminal b hook l s t E)).
+  exact (proj1 (basic_one_terminal b hook l s t E)).
 Qed.
-Print Assumptions C17_at_most_one_terminal_basic.
-
-(* "nothing after it" is false for basic and hook tasks: KILL before the RUNNING timer *)
-Definition C17_one_terminal_basic_statement : Prop := forall b hook l,
-  status_ok (statuses (snd (brun b hook binit l))) = true.
-
-Theorem C17_one_terminal_basic_refuted : ~ C17_one_terminal_basic_statement.
-Proof.
-  intro H. specialize (H nbeh false [ALaunch; AKill; ATimer]).
-  rewrite basic_status_after_terminal in H. discriminate H.
-Qed.
-Print Assumptions C17_one_terminal_basic_refuted.
-
-Theorem C17_one_terminal_basic_partial : forall b hook l,
-  (forall l1 l2, l = l1 ++ AKill :: l2 -> b_timer (fst (brun b hook binit l1)) = false) ->
-  status_ok (statuses (snd (brun b hook binit l))) = true.
-Proof. exact basic_one_terminal_partial. Qed.
-Print Assumptions C17_one_terminal_basic_partial.
+Print Assumptions C17_one_terminal_basic.
 
 (* the reaper of a basic / hook task reports the device event only: without KILL no terminal status *)
 Theorem C17_terminal_only_on_kill_basic : forall b hook l,
@@ -50,7 +34,7 @@ Print Assumptions C17_terminal_only_on_kill_basic.
 (* ===== clause 2: killed on request => KILLED or FINISHED, not FAILED ===== *)
 
 Theorem C17_killed_not_failed_ctl : forall b l1 l2 s1 t1 s2 o s3 t3,
-  crun b cinit l1 = (s1, t1) -> c_crashed s1 = false ->
+  crun b cinit l1 = (s1, t1) -> c_crashed s1 = false -> c_rpc s1 = true ->
   cstep b s1 AKill = (s2, o) -> has_crash o = false -> count_disc o = 0 ->
   crun b s2 l2 = (s3, t3) ->
   forallb is_fk (statuses (o ++ t3)) = true.
@@ -61,7 +45,7 @@ Theorem C17_never_failed_basic : forall b hook l,
   forallb is_rf (statuses (snd (brun b hook binit l))) = true.
 Proof.
   intros b hook l. destruct (brun b hook binit l) as [s t] eqn:E.
-  exact (proj2 (basic_at_most_one_terminal b hook l s t E)).
+  exact (proj2 (basic_one_terminal b hook l s t E)).
 Qed.
 Print Assumptions C17_never_failed_basic.
 
@@ -69,7 +53,7 @@ Print Assumptions C17_never_failed_basic.
 
 (* controllable: an accepted KILL of a task that is up starts the escalation ... *)
 Theorem C17_kill_starts_escalation : forall b l s t s' o,
-  crun b cinit l = (s, t) -> c_crashed s = false -> c_phase s = CWait ->
+  crun b cinit l = (s, t) -> c_crashed s = false -> c_phase s = CWait -> c_rpc s = true ->
   cstep b s AKill = (s', o) -> has_crash o = false -> count_disc o = 0 ->
   esc_ok s' /\ waited o = 0 /\
   (sigs o = [] /\ c_kpc s' = KDone \/ sigs o = [TERM] /\ c_kpc s' = KInt \/
@@ -90,82 +74,82 @@ Theorem C17_escalation_bounded : forall b l s s' t,
 Proof. exact ctl_escalation_bounded. Qed.
 Print Assumptions C17_escalation_bounded.
 
-(* the whole group: false — the escalation signals the pid the device reported, not the group *)
-Definition C17_ctl_no_survivor_statement : Prop := forall b l,
+(* the whole group: when Kill returns it has swept the process group (repair of C17-g), so once
+   the escalation is over nothing the device forked is left — every behaviour, every schedule *)
+Theorem C17_ctl_no_survivor : forall b l,
   c_kpc (fst (crun b cinit l)) = KFin -> c_gc (fst (crun b cinit l)) = false.
+Proof. intros b l. exact (proj1 (ctl_no_survivor b l cinit gc_inv_init)). Qed.
+Print Assumptions C17_ctl_no_survivor.
 
-Theorem C17_ctl_no_survivor_refuted : ~ C17_ctl_no_survivor_statement.
-Proof.
-  intro H.
-  specialize (H fbeh [ALaunch; ADialOk; APollReady; AKill; AKillStep; AKillStep; AKillStep] eq_refl).
-  vm_compute in H. discriminate H.
-Qed.
-Print Assumptions C17_ctl_no_survivor_refuted.
-
-Theorem C17_ctl_no_survivor_partial : forall b l,
-  bh_fork b = false -> c_gc (fst (crun b cinit l)) = false.
-Proof. intros b l Hf. exact (ctl_gc_false b l cinit Hf eq_refl). Qed.
-Print Assumptions C17_ctl_no_survivor_partial.
-
-(* basic: STOP kills the group at once when the child has not been reaped yet (the repaired
-   nil-ProcessState case) ... *)
+(* basic: STOP sends SIGKILL to the group of the current command whatever the state of the child
+   (running; exited, not reaped; reaped after an exit or after a signal — repairs of C17-a/d/h),
+   answers, does not block ... *)
 Theorem C17_stop_kills_group_basic : forall b s i c s' o,
-  b_crashed s = false -> b_active s = true -> b_pending s = None ->
+  b_crashed s = false -> b_active s = true ->
   b_cmd s = Some i -> nth_error (b_children s) i = Some c ->
-  (ch_st c = PRun \/ exists d, ch_st c = PZombie d) ->
   bstep b false s (AReq RStop) = (s', o) ->
-  o = [OSig ToGroup KILL9; OResp RStop true] /\ b_crashed s' = false /\
-  b_pending s' = Some KILLED /\ b_blocked s' = b_blocked s /\
+  o = [OSig ToGroup KILL9; OResp RStop true] /\ b_crashed s' = false /\ b_blocked s' = b_blocked s /\
   exists c', nth_error (b_children s') i = Some c' /\ child_live c' = false.
 Proof. exact basic_stop_kills_group. Qed.
 Print Assumptions C17_stop_kills_group_basic.
 
-(* ... but not when the main process had left and was reaped: what it forked lives on *)
-Definition C17_stop_no_survivor_basic_statement : Prop := forall b l,
-  let '(s, t) := brun b false binit (l ++ [AReq RStop]) in
-  b_active s = true -> b_blocked s = O -> existsb child_live (b_children s) = false.
+(* ... and so does KILL of a basic task (repair of C17-b), which also stops the timer *)
+Theorem C17_kill_kills_group_basic : forall b s i c s' o,
+  b_crashed s = false -> b_active s = true ->
+  b_cmd s = Some i -> nth_error (b_children s) i = Some c ->
+  bstep b false s AKill = (s', o) ->
+  o = [OSig ToGroup KILL9; OStatus FINISHED] /\ b_crashed s' = false /\
+  b_active s' = false /\ b_timer s' = false /\
+  exists c', nth_error (b_children s') i = Some c' /\ child_live c' = false.
+Proof. exact basic_kill_kills_group. Qed.
+Print Assumptions C17_kill_kills_group_basic.
 
-Theorem C17_stop_no_survivor_basic_refuted : ~ C17_stop_no_survivor_basic_statement.
+(* hook tasks are left alone by KILL, by design of the executor (a hook may be triggered after
+   KILL and is bounded by its own timeout): the clause fails for them (recorded, C17-b) *)
+Definition C17_kill_no_survivor_hook_statement : Prop := forall b l,
+  existsb child_live (b_children (fst (brun b true binit (l ++ [AKill])))) = false.
+
+Theorem C17_kill_no_survivor_hook_refuted : ~ C17_kill_no_survivor_hook_statement.
 Proof.
-  intro H. specialize (H fkbeh [ALaunch; ATimer; AReq RStart; AExit 0; AReap 0]).
-  vm_compute in H. specialize (H eq_refl eq_refl). discriminate H.
-Qed.
-Print Assumptions C17_stop_no_survivor_basic_refuted.
-
-(* KILL of a basic or hook task signals nothing at all *)
-Definition C17_kill_no_survivor_basic_statement : Prop := forall b hook l,
-  existsb child_live (b_children (fst (brun b hook binit (l ++ [AKill])))) = false.
-
-Theorem C17_kill_no_survivor_basic_refuted : ~ C17_kill_no_survivor_basic_statement.
-Proof.
-  intro H. specialize (H nbeh false [ALaunch; ATimer; AReq RStart]).
+  intro H. specialize (H nbeh [ALaunch; ATimer; AReq RTrigger]).
   vm_compute in H. discriminate H.
 Qed.
-Print Assumptions C17_kill_no_survivor_basic_refuted.
+Print Assumptions C17_kill_no_survivor_hook_refuted.
 
-Theorem C17_kill_signals_nothing_basic : forall b hook s s' o,
-  bstep b hook s AKill = (s', o) -> b_children s' = b_children s /\ sigs o = [].
-Proof. exact basic_kill_leaves_children. Qed.
-Print Assumptions C17_kill_signals_nothing_basic.
+Theorem C17_kill_signals_nothing_hook : forall b s s' o,
+  bstep b true s AKill = (s', o) -> b_children s' = b_children s /\ sigs o = [].
+Proof. exact hook_kill_leaves_children. Qed.
+Print Assumptions C17_kill_signals_nothing_hook.
 
 (* ===== clause 4: no request makes the executor crash or hang ===== *)
 
+(* basic and hook tasks: full statement (repairs of C17-a/d/i): no crash, no handler left blocked *)
+Theorem C17_no_crash_or_hang_basic : forall b hook l,
+  has_crash (snd (brun b hook binit l)) = false /\ b_crashed (fst (brun b hook binit l)) = false /\
+  b_blocked (fst (brun b hook binit l)) = O.
+Proof. intros b hook l. exact (basic_no_crash_no_hang b hook l binit eq_refl eq_refl). Qed.
+Print Assumptions C17_no_crash_or_hang_basic.
+
+(* controllable: a KILL that finds no client (second KILL during the first, repair of C17-f; KILL
+   before the dial returned) is refused without touching anything *)
+Theorem C17_kill_without_client_harmless : forall b s s' o,
+  c_crashed s = false -> c_rpc s = false -> cstep b s AKill = (s', o) ->
+  has_crash o = false /\ sigs o = [] /\ statuses o = [] /\ c_crashed s' = false /\
+  c_kpc s' = c_kpc s /\ c_pending s' = c_pending s /\ c_proc s' = c_proc s /\ c_gc s' = c_gc s /\
+  c_phase s' = c_phase s /\ c_active s' = false.
+Proof. exact ctl_second_kill_harmless. Qed.
+Print Assumptions C17_kill_without_client_harmless.
+
+(* what remains (recorded, C17-e): Kill closes the client under the start-up poll of Launch *)
 Definition C17_no_crash_ctl_statement : Prop := forall b l,
   has_crash (snd (crun b cinit l)) = false.
 
 Theorem C17_no_crash_ctl_refuted : ~ C17_no_crash_ctl_statement.
 Proof.
-  intro H. specialize (H nbeh [ALaunch; AKill]).
-  rewrite ctl_crash_kill_before_dial in H. discriminate H.
+  intro H. specialize (H nbeh [ALaunch; ADialOk; APollTick; AKill; APollTick]).
+  rewrite ctl_crash_kill_during_poll in H. discriminate H.
 Qed.
 Print Assumptions C17_no_crash_ctl_refuted.
-
-(* the two other ways: Kill closes the client under the start-up poll; a second KILL during the first *)
-Theorem C17_crash_ctl_other_witnesses :
-  has_crash (snd (crun nbeh cinit [ALaunch; ADialOk; APollTick; AKill; APollTick])) = true /\
-  has_crash (snd (crun nbeh cinit [ALaunch; ADialOk; APollReady; AKill; AKill])) = true.
-Proof. exact (conj ctl_crash_kill_during_poll ctl_crash_second_kill). Qed.
-Print Assumptions C17_crash_ctl_other_witnesses.
 
 Theorem C17_no_crash_ctl_partial : forall b l,
   (forall l1 l2, l = l1 ++ AKill :: l2 -> kill_safe (fst (crun b cinit l1))) ->
@@ -173,33 +157,12 @@ Theorem C17_no_crash_ctl_partial : forall b l,
 Proof. exact ctl_no_crash_partial. Qed.
 Print Assumptions C17_no_crash_ctl_partial.
 
-Definition C17_no_crash_or_hang_basic_statement : Prop := forall b l,
-  has_crash (snd (brun b false binit l)) = false /\ b_blocked (fst (brun b false binit l)) = O.
-
-Theorem C17_no_crash_or_hang_basic_refuted :
-  ~ C17_no_crash_or_hang_basic_statement /\
-  (* the hang: the STOP of the run after a child died by a signal is not answered while the new child lives *)
-  (let '(s, t) := brun sbeh false binit stuck_sched in
-   b_blocked s = 1%nat /\ b_crashed s = false /\
-   nth_error (b_children s) 1 = Some (mkChild PRun false) /\ late_resps t = [true; false; true]) /\
-  (* the crash: KILL, then the reaper lets the blocked handler through *)
-  has_crash (snd (brun sbeh false binit (stuck_sched ++ [AKill; AExit 1; AReap 1]))) = true.
-Proof.
-  split; [|exact (conj basic_stop_hangs basic_crash_after_blocked_stop)].
-  intro H. destruct (H sbeh stuck_sched) as [_ H2]. vm_compute in H2. discriminate H2.
-Qed.
-Print Assumptions C17_no_crash_or_hang_basic_refuted.
-
-Theorem C17_no_crash_basic_partial : forall b hook l,
-  (forall l1 l2, l = l1 ++ l2 -> b_blocked (fst (brun b hook binit l1)) = O) ->
-  has_crash (snd (brun b hook binit l)) = false /\ b_crashed (fst (brun b hook binit l)) = false.
-Proof. exact basic_no_crash_partial. Qed.
-Print Assumptions C17_no_crash_basic_partial.
-
-Theorem C17_no_crash_or_hang_hook : forall b l,
-  b_blocked (fst (brun b true binit l)) = O /\ has_crash (snd (brun b true binit l)) = false.
-Proof. intros b l. exact (hook_never_blocks b l binit eq_refl eq_refl). Qed.
-Print Assumptions C17_no_crash_or_hang_hook.
+(* and (recorded, C17-j): a KILL before the dial returned is refused — the task goes on starting *)
+Theorem C17_kill_before_dial_refused :
+  let '(s, t) := crun nbeh cinit [ALaunch; AKill] in
+  t = [] /\ c_crashed s = false /\ c_active s = false /\ is_run (c_proc s) = true.
+Proof. exact ctl_kill_before_dial_refused. Qed.
+Print Assumptions C17_kill_before_dial_refused.
 
 (* non-vacuity: the hypotheses of the conditional theorems are met by concrete runs *)
 Example C17_nonvacuous :
@@ -208,13 +171,21 @@ Example C17_nonvacuous :
    let '(s1, t1) := crun b cinit [ALaunch; ADialOk; APollReady] in
    let '(s2, o) := cstep b s1 AKill in
    let '(s3, t3) := crun b s2 [AKillStep; AKillStep; AKillStep; AReap 0] in
-   c_crashed s1 = false /\ c_phase s1 = CWait /\ has_crash o = false /\ count_disc o = 0 /\
+   c_crashed s1 = false /\ c_phase s1 = CWait /\ c_rpc s1 = true /\ has_crash o = false /\ count_disc o = 0 /\
    esc_ok s2 /\ statuses (t1 ++ o ++ t3) = [RUNNING; KILLED] /\ sigs (o ++ t3) = [TERM; INT; KILL9] /\
    waited t3 = et_sigterm_ms + et_sigint_ms) /\
   (* a basic task: the state in which STOP finds the child running *)
   (let '(s, t) := brun nbeh false binit [ALaunch; ATimer; AReq RStart] in
    b_crashed s = false /\ b_active s = true /\ b_pending s = None /\ b_cmd s = Some 0%nat /\
    nth_error (b_children s) 0 = Some (mkChild PRun false) /\ b_timer s = false /\ b_blocked s = O) /\
+  (* the old witnesses of C17-c, C17-d/i, C17-b, C17-h, C17-g now behave *)
+  statuses (snd (brun nbeh false binit [ALaunch; AKill; ATimer])) = [FINISHED] /\
+  (let '(s, t) := brun sbeh false binit (stuck_sched ++ [AKill; AExit 1; AReap 1]) in
+   has_crash t = false /\ b_blocked s = O /\ late_resps t = [true; true; true; true]) /\
+  existsb child_live (b_children (fst (brun fkbeh false binit [ALaunch; ATimer; AReq RStart; AKill]))) = false /\
+  existsb child_live (b_children (fst (brun fkbeh false binit
+     [ALaunch; ATimer; AReq RStart; AExit 0; AReap 0; AReq RStop]))) = false /\
+  c_gc (fst (crun fbeh cinit [ALaunch; ADialOk; APollReady; AKill; AKillStep; AKillStep; AKillStep])) = false /\
   (* its normal life *)
   statuses (snd (brun nbeh false binit
      [ALaunch; ATimer; AReq RConf; AReq RStart; AReq RStop; AReap 0; AReq RReset; AKill])) = [RUNNING; FINISHED].
